@@ -33,3 +33,14 @@ Definition wrapper_reset_ok (members unload unload_w call_start upd listc calls 
 Definition reviewed_not_reset : list string := ["Dispersion_mix_map"; "Rxn_exchange_mix_map"; "Rxn_gas_phase_mix_map"; "Rxn_kinetics_mix_map"; "Rxn_new_exchange"; "Rxn_new_gas_phase"; "Rxn_new_kinetics"; "Rxn_new_mix"; "Rxn_new_pp_assemblage"; "Rxn_new_pressure"; "Rxn_new_reaction"; "Rxn_new_solution"; "Rxn_new_ss_assemblage"; "Rxn_new_surface"; "Rxn_new_temperature"; "Rxn_pp_assemblage_mix_map"; "Rxn_solution_mix_map"; "Rxn_ss_assemblage_mix_map"; "Rxn_surface_mix_map"; "SC"; "anion_list"; "array1"; "back_eq"; "bad"; "bdot_llnl"; "cation_list"; "charge_group_map"; "col_back"; "col_name"; "cu"; "default_pe_x"; "delete_info"; "delta"; "delta1"; "delta2"; "delta3"; "delta_save"; "description_x"; "dump_file_name_cpp"; "dump_info"; "gas_binary_parameters"; "gas_unknowns"; "gfw_map"; "good"; "ineq_array"; "inv_cu"; "inv_delta1"; "inv_is"; "inv_iu"; "inv_res"; "inv_zero"; "inverse_heading_names"; "ioInstance"; "ion_list"; "is"; "iu"; "kgw_kgs"; "max_delta"; "max_strings"; "mean_gammas"; "min_delta"; "minimal"; "mixrun"; "my_array"; "neutral_list"; "normal"; "param_list"; "rate_p"; "rate_parameters_hermanska"; "rate_parameters_pk"; "rate_parameters_svd"; "rates_map"; "res"; "res_arg"; "residual"; "rho_0_sat"; "row_back"; "row_name"; "s_diff_layer"; "s_list"; "s_x"; "scratch"; "screen_string"; "sit_aqueous_unknowns"; "solution_mass_x"; "solution_volume_x"; "status_string"; "strings_map"; "sum_delta"; "sum_jacob0"; "sum_jacob1"; "sum_jacob2"; "sum_mb1"; "sum_mb2"; "sum_species_map"; "sum_species_map_db"; "sys"; "tally_table"; "units_x"; "unnumbered_solutions"; "user_database"; "x_arg"; "zero"].
 
 Definition phreeqc_reset_ok (not_reset : list string) : bool := forallb (fun m => mem m reviewed_not_reset) not_reset.
+
+(** calls the reset path must make (reviewed list): freeing and re-creating sub-objects that carry state of their own
+    (the BASIC interpreter with its sticky output flags, pitzer/sit tables, CVODE work space, rates, calculate_values,
+    the string pool ...).  A call that disappears from clean_up / initialize / UnLoadDatabase makes the obligation false. *)
+Definition required_reset_calls : list string :=
+  ["UnLoadDatabase:Clear"; "UnLoadDatabase:ClearAccumulatedLines"; "UnLoadDatabase:clean_up"; "UnLoadDatabase:init"; "UnLoadDatabase:do_initialize";
+   "clean_up:basic_free"; "clean_up:calculate_value_free"; "clean_up:free_cvode"; "clean_up:free_model_allocs"; "clean_up:free_spread";
+   "clean_up:free_tally_table"; "clean_up:inverse_free"; "clean_up:master_free"; "clean_up:phase_free"; "clean_up:pitzer_clean_up";
+   "clean_up:rate_free"; "clean_up:s_free"; "clean_up:sit_clean_up"; "clean_up:strings_map_clear"; "clean_up:unknown_free";
+   "do_initialize:initialize"; "initialize:PBasic"; "initialize:basic_free"; "initialize:cvode_init"; "initialize:pitzer_init"; "initialize:sit_init"].
+Definition reset_calls_ok (calls : list string) : bool := forallb (fun c => mem c calls) required_reset_calls.
